@@ -789,7 +789,14 @@ class Interp:
                         out.append((s3, ('slice', b, tlo, thi)))
                 continue
             for s3, k in self.ev(e.slice, s2):
-                self.emit(s3, 'load', e, container=b, key=k)
+                lev = self.emit(s3, 'load', e, container=b, key=k)
+                pexc = self.R.op_excs.get(id(e))
+                if pexc and id(e) not in self.R.discharged and \
+                        self.fork_raises:
+                    s4 = s3.copy()
+                    self._raise_out[-1].append((s4, {
+                        'names': set(pexc), 'node': e, 'obj': None,
+                        'frame': s3.frame, 'via_load': lev}))
                 # __getitem__ of an h2 class is a call
                 for a in self.r.type_of(e.value, s3.fi):
                     if a[0] == 'inst':
@@ -1129,6 +1136,10 @@ class Interp:
 
     def call(self, e, st, ft, recv, args, kw):
         f = e.func
+        if isinstance(f, ast.Attribute) and \
+                isinstance(f.value, ast.Attribute) and \
+                f.value.attr == 'logger':
+            return [(st, T.NONE)]       # logging: no effect on the protocol
         targets = self.r.resolve_call(e, st.fi)
         names = tuple(sorted(
             (t.fi.qual if t.kind == 'h2' and t.fi else
@@ -1284,8 +1295,14 @@ class Interp:
             st.objs[o] = fields
             self.emit(st, 'new', e, obj=o, cls=cls, args=tuple(args),
                       kwargs=dict(kw))
+            sidt = fields.get('stream_id')
+            sid = sidt[1] if (sidt is not None and T.is_int_const(sidt)) \
+                else (0 if sidt is None and cls in ('SettingsFrame',
+                                                    'PingFrame') else None)
+            excs = extlib.frame_ctor_raises(
+                cls, sid, any(k in kw for k in ('settings', 'flags')))
             self._opaque_call(st, e, [], name, args, kw, None,
-                              raises=excs or set(), names=(name,))
+                              raises=excs, names=(name,))
             return [(st, o)]
         if cls in ('NeverIndexedHeaderTuple', 'HeaderTuple'):
             return [(st, ('call', cls, tuple(args), None))]
